@@ -196,6 +196,21 @@ def definition_changes(p, snap):
     return bad
 
 
+def works_after_other_calls(w, model, m, n, base, op):
+    """does the request succeed on an object of the same definition once the matrices were evaluated?  (an exception that occurs in
+    every history is not a dependence on the history)"""
+    q = w.panel(model, m, n, base)
+    q.out_num_cores = 1
+    t, _ = ops_panel(w, q)
+    try:
+        for pre in ('calc_k0', 'calc_kG0', 'calc_kM'):
+            t[pre]()
+        t[op]()
+        return True
+    except Exception:
+        return False
+
+
 def build(cfg, values=None):
     if cfg.get('shell'):
         # complete shells: the laminate matrix handed to the kernels and the geometric stiffness do not depend on how many times
@@ -227,6 +242,8 @@ def build(cfg, values=None):
             try:
                 t1[first]()
             except Exception as e:
+                if not works_after_other_calls(w, model, m, n, base, first):
+                    raise       # the request fails in every history at this size (e.g. ARPACK needs k < N): a limit of the bound, not a history effect
                 obs.append(('requested-first-on-a-fresh-object[%s]' % first, Sym.lift(1), Sym.lift(0)))
         if redef != 'none':
             w.apply_defn(p, REDEF[redef])
@@ -255,6 +272,8 @@ def build(cfg, values=None):
         try:
             r_fresh = flat(t2[last](), last)
         except Exception as e:
+            if redef == 'none' and not works_after_other_calls(w, model, m, n, base, last):
+                raise
             obs.append(('requested-first-on-a-fresh-object[%s]' % last, Sym.lift(1), Sym.lift(0)))
             r_fresh = None
             info_exc = '%s: %s' % (type(e).__name__, str(e)[:160])
@@ -319,18 +338,19 @@ def configs(tier, seed):
     import random
     rnd = random.Random(seed)
     for model in models:
+        mm = 3 if model == 'plate_w' else 2      # one displacement component only: the eigen-solvers need k < N - 1
         mops = [o for o in ops if not (model == 'plate_w' and o in ('calc_fint', 'calc_kT', 'strain', 'stress', 'calc_fext'))]
         for last in mops:
-            out.append({'model': model, 'm': 2, 'n': 1, 'first': '-', 'redef': 'none', 'last': last, 'group': 'fresh-first:%s' % model})
+            out.append({'model': model, 'm': mm, 'n': 1, 'first': '-', 'redef': 'none', 'last': last, 'group': 'fresh-first:%s' % model})
             firsts = mops if not quick else [o for o in mops if (zlib.crc32(('%s;%s;%d' % (o, last, seed)).encode()) % 3 == 0) or o in ('calc_k0', last)]
             for first in firsts:
-                out.append({'model': model, 'm': 2, 'n': 1, 'first': first, 'redef': 'none', 'last': last, 'group': 'pair:%s' % model})
+                out.append({'model': model, 'm': mm, 'n': 1, 'first': first, 'redef': 'none', 'last': last, 'group': 'pair:%s' % model})
             for redef in ('mu', 'a', 'Nxx', 'lam', 'offset', 'flag', 'b', 'Nxy', 'order') + (('r',) if model == 'cpanel' else ()):
                 fs = [last, 'calc_k0'] if quick else [last, 'calc_k0', 'freq', 'lb', 'calc_kM']
                 if quick and redef in ('b', 'Nxy', 'order', 'r'):
                     fs = ['calc_k0']
                 for first in sorted(set(fs) & set(mops)):
-                    out.append({'model': model, 'm': 2, 'n': 1, 'first': first, 'redef': redef, 'last': last, 'group': 'redefinition-%s:%s' % (redef, model)})
+                    out.append({'model': model, 'm': mm, 'n': 1, 'first': first, 'redef': redef, 'last': last, 'group': 'redefinition-%s:%s' % (redef, model)})
     # conical panel: the matrices follow the current cone angle / radius, whichever matrix is asked for first
     kops = ['get_size', 'calc_k0', 'calc_kG0', 'calc_kM']
     for last in kops:
